@@ -2,6 +2,7 @@ import GoMailModel.Proofs.EncodedWord
 import GoMailModel.Proofs.Fold
 import GoMailModel.Mime.Render
 import GoMailModel.Proofs.Addr
+import GoMailModel.Proofs.EncodedWordRT
 /-
   C02 — No caller-supplied text can alter the header block.
   Core: whatever bytes a caller passes to a text-accepting setter, the stored header value is
@@ -25,6 +26,31 @@ theorem stored_value_no_crlf (s : MsgState) (raw : Bytes) (hcs : AllSafe s.chars
 theorem part_text_no_crlf (enc : EncLabel) (charset raw : Bytes) (hcs : AllSafe charset) :
     ∀ b ∈ wordEncode (encoderOf enc) charset raw, b ≠ 13 ∧ b ≠ 10 :=
   wordEncode_no_crlf _ _ _ hcs
+
+/-- **Each free-text value decodes to the string that was set.** What Msg.encodeString stores for a
+    subject, a generic header value, an organisation, a user agent, a description or a (sanitised) file
+    name is either the value itself - when it consists of printable ASCII and TAB only - or a sequence
+    of RFC 2047 encoded-words which an RFC 2047 reader written from the grammar
+    (Codec/EncodedWordDec.lean: "Q" and "B", adjacent words joined) decodes to exactly the bytes that
+    were set: for EVERY byte string, both encodings, however the encoder splits the text into words,
+    every charset label without '?'. (The other case, a printable value that itself looks like an
+    encoded-word, is the known finding c02-encoded-word-lookalike.) -/
+theorem stored_value_decodes (e : Enc) (charset raw : Bytes) (hcs : ∀ c ∈ charset, c ≠ 63) :
+    (needsEncoding raw = true → decodeWords (wordEncode e charset raw) = some raw) ∧
+    (needsEncoding raw = false → wordEncode e charset raw = raw) := by
+  constructor
+  · intro h
+    unfold wordEncode
+    rw [if_pos h]
+    exact decodeWords_encodeWord e charset raw hcs
+  · intro h
+    unfold wordEncode
+    simp [h]
+
+/-- non-vacuity: a subject that needs two encoded-words -/
+example : decodeWords (wordEncode .q (sb "UTF-8") (sb "Grüße aus Köln, Grüße aus Köln, Grüße aus Köln, Grüße aus Köln")) =
+    some (sb "Grüße aus Köln, Grüße aus Köln, Grüße aus Köln, Grüße aus Köln") :=
+  (stored_value_decodes .q (sb "UTF-8") _ (by decide)).1 (by decide)
 
 theorem sanitize_byte : ∀ b : UInt8,
     let c := Body.sanitizeByte b
